@@ -63,6 +63,7 @@ def one_faults(seed, i, tier, res):
         dests.insert(rng.randint(0, len(dests)), MaskedDestination(tape, "bad%d" % j, pred, fac))
     add_destinations(*dests)
     it = Interp(tape=tape)
+    it.explicit_loggers = True
     try:
         it.run(prog)
     finally:
